@@ -11,7 +11,8 @@ func ExistsFile(path string) bool {
 }
 
 func OpenFile(path string) *os.File {
-	file, err := os.OpenFile(path, os.O_RDWR, 0)
+	// truncate: the file must end up holding exactly what is written, whatever it held before
+	file, err := os.OpenFile(path, os.O_RDWR|os.O_TRUNC, 0)
 	CheckError(err)
 	return file
 }
